@@ -494,31 +494,41 @@ pub fn note_round() {
     });
 }
 
-/// Called with the evidence of one class just before it is folded: lets the
-/// scheduler reorder it and logs the order that is used.
-pub fn fold_hook(tv: usize, exprs: &mut VecDeque<TypeExpression>) {
+/// The scheduling point for the evidence of one class: stands for the
+/// iteration order of the class's evidence set.
+pub fn fold_hook(_tv: usize, exprs: &mut VecDeque<TypeExpression>) {
+    let n = exprs.len();
+    if n < 2 {
+        return;
+    }
+    CTX.with(|c| {
+        let mut ctx = c.borrow_mut();
+        let site = str_hash("fold");
+        let d = decide(&mut ctx, site, n as u32, true);
+        let mut v: Vec<TypeExpression> = exprs.drain(..).collect();
+        match &d {
+            Decision::KindAsc => v.sort_by_key(|e| (kind_rank(e), kind_of(e))),
+            Decision::KindDesc => {
+                v.sort_by_key(|e| (kind_rank(e), kind_of(e)));
+                v.reverse();
+            }
+            other => {
+                if !apply_generic(&mut v, other) && ctx.record.script_mismatch.is_none() {
+                    ctx.record.script_mismatch = Some("bad permutation at fold".into());
+                }
+            }
+        }
+        exprs.extend(v);
+        record_event(&mut ctx, site, || "fold".into(), n as u32, &d);
+    });
+}
+
+/// Logs the evidence of one class in the order in which it is about to be
+/// folded.
+pub fn note_fold(tv: usize, exprs: &VecDeque<TypeExpression>) {
     let n = exprs.len();
     CTX.with(|c| {
         let mut ctx = c.borrow_mut();
-        if n >= 2 {
-            let site = str_hash("fold");
-            let d = decide(&mut ctx, site, n as u32, true);
-            let mut v: Vec<TypeExpression> = exprs.drain(..).collect();
-            match &d {
-                Decision::KindAsc => v.sort_by_key(|e| (kind_rank(e), kind_of(e))),
-                Decision::KindDesc => {
-                    v.sort_by_key(|e| (kind_rank(e), kind_of(e)));
-                    v.reverse();
-                }
-                other => {
-                    if !apply_generic(&mut v, other) && ctx.record.script_mismatch.is_none() {
-                        ctx.record.script_mismatch = Some("bad permutation at fold".into());
-                    }
-                }
-            }
-            exprs.extend(v);
-            record_event(&mut ctx, site, || "fold".into(), n as u32, &d);
-        }
         ctx.record.folds += 1;
         if n >= 2 {
             ctx.record.folds_multi += 1;
@@ -548,7 +558,7 @@ pub fn fold_hook(tv: usize, exprs: &mut VecDeque<TypeExpression>) {
     });
 }
 
-/// Records the outcome of the fold most recently announced by [`fold_hook`].
+/// Records the outcome of the fold most recently announced by [`note_fold`].
 pub fn note_fold_result(result: &TypeExpression) {
     CTX.with(|c| {
         let mut ctx = c.borrow_mut();
